@@ -34,6 +34,7 @@ Inputs: `x : Nat → Nat` in the theorems up to `C10_history`; the last section
 import MpcVerif.Proofs.GmwRun
 import MpcVerif.Proofs.GmwHist
 import MpcVerif.Proofs.GmwInt
+import MpcVerif.Proofs.GmwMsgs
 import MpcVerif.Proofs.LevelsMod
 import MpcVerif.Model.Iknp
 
@@ -636,6 +637,43 @@ theorem C10_abs_words_run_wrong :
     exIntC.compute (inputBitsInt [3, 1] exIntX) = [true, false, true] ∧
     runOuts (runInt exIntC [3, 1] exIntX exRnd noPools) = some [[true, false, true], [true, false, true]] ∧
     runOuts (runAbs exIntC [3, 1] exIntX exRnd noPools) = some [[true, false, false], [true, false, false]] := by
+  decide +kernel
+
+/-! ### degenerate session shapes: the message transcript of a run (`Model/GmwMsgs.lean`)
+
+The quantifier "every circuit, all inputs" includes arguments of 0 bits (a party that only receives the result),
+circuits without AND gates, without gates, without outputs.  `Network.run` posts one `receiveInput` per peer
+unconditionally; the run completes only if the peer's `shareInput` puts a message on the connection whatever
+the width of its argument.  The harness ties `sentBytes (transcript ..)` to `Stats().Sent` of every party of
+the degenerate sessions (`msgs` op). -/
+
+/-- **Message-count invariant of the input sharing.**  For every list of argument widths - 0 included - every
+party sends exactly one input-share message to every peer, and every such message is on the wire: its 4-byte
+length and `ceil(bits/8)` share bytes (for a 0-bit argument the length alone). -/
+theorem C10_input_share_one_message_per_pair (sizes : List Nat) (p q : Nat) (hp : p < sizes.length)
+    (hq : q < sizes.length) (hpq : p ≠ q) :
+    (inputMsgs sizes).countP (fun m => m.src == p && m.dst == q) = 1 ∧
+    ∀ m ∈ inputMsgs sizes, m.bytes = 4 + (sizes.getD m.src 0 + 7) / 8 ∧ 4 ≤ m.bytes := by
+  refine ⟨round_one_per_pair _ _ _ p q hp hq hpq, ?_⟩
+  intro m hm
+  have h := (mem_round hm).2.2.2.2
+  rw [h]; unfold inputBytes; exact ⟨rfl, by omega⟩
+
+example : (inputMsgs [32, 32, 0]).countP (fun m => m.src == 2 && m.dst == 0) = 1 := by decide
+example : ((inputMsgs [32, 32, 0]).filter fun m => m.src == 2).map (·.bytes) = [4, 4] := by decide
+
+/-- **Every receive is matched.**  Over a whole run (input shares, one opening per AND batch, output shares) the
+number of messages `p → q` equals the number of messages `q → p` equals `#batches + 2`, for every pair of distinct
+parties, all argument widths, all batch lists (the empty one included) and all output-share lengths: no party
+waits for a message its peer does not send. -/
+theorem C10_transcript_matched (sizes ws : List Nat) (outLen : Nat → Nat) (p q : Nat) (hp : p < sizes.length)
+    (hq : q < sizes.length) (hpq : p ≠ q) :
+    (transcript sizes ws outLen).countP (fun m => m.src == p && m.dst == q) = ws.length + 2 ∧
+    (transcript sizes ws outLen).countP (fun m => m.src == q && m.dst == p) = ws.length + 2 :=
+  ⟨transcript_count sizes ws outLen p q hp hq hpq, transcript_count sizes ws outLen q p hq hp (Ne.symm hpq)⟩
+
+example : (transcript [0, 0] [] (fun _ => 0)).countP (fun m => m.src == 1 && m.dst == 0) = 2 := by decide
+example : (List.range 3).map (sentBytes (transcript [32, 32, 0] [1, 2, 1] (fun _ => 4))) = [248, 248, 240] := by
   decide +kernel
 
 end Mpc
